@@ -413,6 +413,15 @@ pub fn per_name(ev: Ev) -> Vec<String> {
             out.push(format!("⌊{}⌋", call));
             out.push(format!("{}⌈2⌉", call));
         }
+        // the keyword cut off by the end of the input (every proper prefix, alone and at the end of an
+        // expression), and cut off by a non-letter
+        let kwc: Vec<char> = name.chars().collect();
+        for n in 1..kwc.len() {
+            let pre: String = kwc[..n].iter().collect();
+            for ctx in ["{}", "2+{}", "({}", "2{}", "{}(", "{})", "{}2", "{}.", "{} ", "{}π", "{}²", "-{}", "{}@"] {
+                out.push(ctx.replace("{}", &pre));
+            }
+        }
         // keyword near-misses: every deletion, and substitutions / insertions over the keyword letters
         let letters: Vec<char> = "abcdefgilmnopqrstuvwx2_".chars().collect();
         let kw: Vec<char> = name.chars().collect();
